@@ -56,6 +56,27 @@ def renderOp : Op
     | _, _ => bad
   | _ => bad
 
+mutual
+/-- The accessor values of every block of a tree, in pre-order: `kind:HeadingLevel:IsOrderedList:IsTightList:ListItemNumber`. -/
+def accNode (src : Bytes) : Tree → List String
+  | .node l cs =>
+    let t := Tree.node l cs
+    (if l.isBlock then
+      [s!"{l.kind}:{Node.headingLevel t}:{showBool (Node.isOrderedList (some t))}:{showBool (Node.isTightList (some t))}:{Node.listItemNumber src (some t)}"]
+     else []) ++ accForest src cs
+def accForest (src : Bytes) : List Tree → List String
+  | [] => []
+  | t :: ts => accNode src t ++ accForest src ts
+end
+
+/-- `acc <srcHex> <tree>` → the model's accessor values for every block (the Go accessors are compared with them). -/
+def accOp : Op
+  | [src, tree] => hexArg src fun s =>
+    match Wire.treeOfString tree with
+    | some t => " ".intercalate (accNode s t)
+    | none => bad
+  | _ => bad
+
 /-- `seams <soft> <ignoreRaw> <filter> <srcHex> <tree> <refs> <ext>` → whether the tree meets the hypothesis
     `rawSeamsOK` of the whole-page theorems of C17 (no name candidate straddles a verbatim-copied slice and what follows). -/
 def seamsOp : Op
@@ -92,6 +113,6 @@ def tagsOp : Op
     if ts.isEmpty then "-" else ",".intercalate (ts.map Bytes.toHex)
   | _ => bad
 
-def renderOps : List (String × Op) := [("render", renderOp), ("filter", filterOp), ("seams", seamsOp), ("tok", tokOp), ("tags", tagsOp)]
+def renderOps : List (String × Op) := [("render", renderOp), ("filter", filterOp), ("seams", seamsOp), ("acc", accOp), ("tok", tokOp), ("tags", tagsOp)]
 
 end CM.Ops
